@@ -1859,8 +1859,9 @@ func c21() {
 		seeds[i] = rng.Int63()
 	}
 	hb := startHeartbeat()
-	if os.Getenv("VERIF_CASE") == "" {
+	if v := os.Getenv("VERIF_CASE"); v == "" || v == "probes" {
 		c21CancelProbes(r, hb)
+		c21AccelerationProbes(r)
 	}
 	workers := runtime.NumCPU()
 	if workers > 16 {
@@ -1901,6 +1902,7 @@ func c21() {
 	r.Assume("Stage is not issued while the destination changed since its last scan and a requested digest has two or more holders in the destination's cache: local.Stage picks its in-root source through a digest->path map built in Go map order, so the required subset is not a function of the inputs there (the monitor rescans first)")
 	r.Assume("FIFOs are created only under names that never carry a file on the other root: local.Stage and rsync.Transmit open files without O_NONBLOCK and block forever on a FIFO (observed; not a local/remote difference)")
 	r.Assume("the remote staging receiver is asynchronous (the server stores files while draining the stream); the monitor waits for it with a Poll round trip before editing the disk again, as the next controller call would")
+	r.Assume("the full flag is checked in dedicated probes with watch mode force-poll and a 24 h polling interval; acceleration is observed (a regular scan after an edit returns the old snapshot on both sides) before regular and full scans are compared; a probe in which it is not observed is inconclusive")
 	r.Assume("cancellation of a long Transition is judged one-sidedly and control-relatively (event-triggered cancel, local control must stop early, the completion request must have been in the server's stream with >= 3/4 of the work left and >= 500 ms and >= 20 heartbeat gaps before the return); anything else is held or inconclusive")
 	r.Assume("a Stage or Supply error ends the remote server by design, so a program stops at the first such (equal on both sides) error")
 	r.Finish("random programs of Scan(full?)/Stage+Supply/Supply probes/Transition/disk edits (incl. empty roots, root kind changes, bulk directories of 300-1800 files, stale plans, wrong digests, missing sources, entry-count and staging-size limits) run identically against a local endpoint and a remote endpoint (client<->server over a randomly fragmenting in-memory pipe, compression none/deflate/default); distinct = (operation, outcome class, compression) of steps whose returned values were compared equal", 25)
